@@ -384,8 +384,67 @@ def check_all_group_operands(st):
     return out
 
 
+X_CONS = ['##any', '##other', '##targetNamespace', '##local', 'urn:a', 'urn:b', 'urn:a urn:b', 'urn:c ##local',
+          '##targetNamespace ##local']
+X_UNI = ['urn:a', 'urn:b', 'urn:c', '']
+
+
+def x_denote(c, tns):
+    if c == '##any':
+        return set(X_UNI)
+    if c == '##other':
+        return {n for n in X_UNI if n not in (tns, '')}
+    return {tns if t == '##targetNamespace' else '' if t == '##local' else t for t in c.split()}
+
+
+def check_crossns(ver, st):
+    """Union (extension) and intersection (attribute group reference) of attribute wildcards declared in two schema
+    documents with DIFFERENT target namespaces: '##other' and '##targetNamespace' denote different sets in each."""
+    import os
+    import shutil
+    import tempfile
+    out = []
+    cls = xmlschema.XMLSchema11 if ver == '11' else xmlschema.XMLSchema10
+    d = tempfile.mkdtemp(prefix='vf_c16x_')
+    try:
+        for c1, c2 in itertools.product(X_CONS, repeat=2):
+            with open(os.path.join(d, 'a.xsd'), 'w') as f:
+                f.write('<xs:schema xmlns:xs="%s" xmlns:a="urn:a" targetNamespace="urn:a"><xs:attributeGroup name="ga">'
+                        '<xs:anyAttribute namespace="%s" processContents="lax"/></xs:attributeGroup><xs:complexType name="B">'
+                        '<xs:anyAttribute namespace="%s" processContents="lax"/></xs:complexType></xs:schema>' % (XS, c1, c1))
+            for op, body in (('union', '<xs:complexType name="T"><xs:complexContent><xs:extension base="a:B"><xs:anyAttribute '
+                                       'namespace="%s" processContents="lax"/></xs:extension></xs:complexContent></xs:complexType>' % c2),
+                             ('intersection', '<xs:complexType name="T"><xs:attributeGroup ref="a:ga"/><xs:anyAttribute '
+                                              'namespace="%s" processContents="lax"/></xs:complexType>' % c2)):
+                mp = os.path.join(d, 'b.xsd')
+                with open(mp, 'w') as f:
+                    f.write('<xs:schema xmlns:xs="%s" xmlns:a="urn:a" xmlns:b="urn:b" targetNamespace="urn:b"><xs:import '
+                            'namespace="urn:a" schemaLocation="a.xsd"/>%s<xs:element name="e" type="b:T"/></xs:schema>' % (XS, body))
+                s1, s2 = x_denote(c1, 'urn:a'), x_denote(c2, 'urn:b')
+                exp = (s1 | s2) if op == 'union' else (s1 & s2)
+                st.case()
+                st.nt(('crossns', ver, op, c1, c2))
+                try:
+                    s = cls(mp)
+                except xmlschema.XMLSchemaException:
+                    st.cls('crossns_%s_rejected_%s' % (op, ver))     # XSD 1.0: some results are not expressible
+                    continue
+                got = set()
+                for ns in X_UNI:
+                    a = ('xmlns:x="%s" x:zz="1"' % ns) if ns else 'zz="1"'
+                    if s.is_valid('<b:e xmlns:b="urn:b" %s/>' % a):
+                        got.add(ns)
+                if got != exp:
+                    out.append({'kind': op + '_verdict_crossns', 'input': {'ver': ver, 'c1_in_urn_a': c1, 'c2_in_urn_b': c2},
+                                'expected': sorted(exp), 'observed': sorted(got), 'classes': [],
+                                'key': 'crossns|%s|%s|%s|%s' % (ver, op, c1, c2)})
+    finally:
+        shutil.rmtree(d, ignore_errors=True)
+    return out
+
+
 def shards(tier, seed):
-    out = [('allgroup', '11')]
+    out = [('allgroup', '11'), ('crossns', '10'), ('crossns', '11')]
     for ver in ('10', '11'):
         cons = _cons(ver)
         n = len(cons)
@@ -410,6 +469,12 @@ def run_shard(desc):
     cons = _cons(ver)
     n = len(cons)
     recs = []
+    if kind == 'crossns':
+        recs = check_crossns(ver, st)
+        st.sample({'op': 'union / intersection of attribute wildcards across two target namespaces', 'ver': ver, 'constraints': X_CONS})
+        for r in recs:
+            core.report(st, PROPERTY, r)
+        return st
     if kind == 'allgroup':
         recs = check_all_group_operands(st)
         st.sample({'op': 'xs:all base with two wildcards, with / without a restricting type', 'namespaces': ALL_NS})
@@ -453,6 +518,8 @@ def replay(record):
     kind = record['kind']
     if kind == 'operand_changed_by_restriction_check':
         return [r for r in check_all_group_operands(st) if r['key'] == record.get('key')]
+    if kind.endswith('_verdict_crossns'):
+        return [r for r in check_crossns(inp['ver'], st) if r['key'] == record.get('key')]
     ver, wk = inp['ver'], inp['wk']
     cs = [tuple(c) for c in inp['cons']]
     if kind.startswith('member'):
